@@ -316,11 +316,10 @@ def handleQcase (args : List String) : Option Out :=
     let count ← if mode == "rows" then some false else if mode == "count" then some true else none
     let ci := stored.toLower == q.toLower
     let exact := stored == q
-    -- a chain is planned for two or more hops when factorized execution is on
-    let later := if fact && hops ≥ 2 then exact else ci
+    let later := laterHopOk fact hops ci exact
     let m := qcaseStr count (qcaseRows n edges ci later hops)
     let sp := qcaseStr count (qcaseRows n edges ci ci hops)
-    some (mkOut m sp "fact-chain-later-hops-edge-type-case-sensitive")
+    some (mkOut m sp "fact-qcase")
   | _ => none
 
 def handle (args : List String) : Option Out :=
